@@ -38,7 +38,9 @@ class Sanitizer(Transformer):
             )
 
     def _check_input_coords(self, X) -> None:
-        if not X.coords[self.feature_name].identical(self.feature_coords):
+        # NOTE: compare labels only; attributes of the coordinate are user metadata that
+        # may legitimately change, e.g. through a save/load round trip of the model
+        if not X.coords[self.feature_name].equals(self.feature_coords):
             raise ValueError(
                 "Cannot transform data. Feature coordinates are different."
             )
